@@ -51,7 +51,8 @@ def run_one(mut, baseline, runs):
         if baseline:
             b = subprocess.run([sys.executable, os.path.join(HERE, 'tools', 'baseline_check.py'), scratch], capture_output=True, text=True)
             res['baseline'] = 'green' if b.returncode == 0 else 'BROKEN ' + b.stdout[-300:]
-        env = dict(os.environ, KERNPY_SRC=scratch)
+        # concurrent jobs for one property would otherwise write the same <seed>-<run>.json
+        env = dict(os.environ, KERNPY_SRC=scratch, VERIF_REPLAY_DIR=os.path.join(HERE, 'out', 'replay-sensitivity', mut['name']))
         env.pop('PYTHONHASHSEED', None)
         env.pop('SIMKIT_NO_REEXEC', None)
         caught_by = None
